@@ -10,7 +10,7 @@ import re
 try:
     import pyparsing
     from pyparsing import CaselessLiteral, Combine, OneOrMore, Optional, \
-        TokenConverter, Word, nums, oneOf, printables, ParserElement, alphanums
+        TokenConverter, Word, nums, oneOf, printables, ParserElement, alphanums, WordEnd
 except ImportError:
     pyparsing = None
     TokenConverter = object
@@ -1102,7 +1102,8 @@ class FileParser(object):
         mixed_exp = _ToFloat(Combine(Optional(sign) + digits + ee + Optional(sign) + digits))
 
         nan = (_ToInf(oneOf("Inf -Inf inf -inf")) |
-               _ToNan(oneOf("NaN nan NaN%  NaNQ NaNS qNaN sNaN 1.#SNAN 1.#QNAN -1.#IND")))
+               _ToNan(oneOf("NaN nan NaN%  NaNQ NaNS qNaN sNaN 1.#SNAN 1.#QNAN -1.#IND"))
+               ) + WordEnd(textchars)
 
         string_text = Word(textchars)
 
